@@ -327,6 +327,44 @@ class Engine:
         self.stats.solver_s += time.time() - t0
         return r
 
+    xcheck_budget = 0
+
+    def uf_defs_in(self, c):
+        return False
+
+    def cross_check(self, ncond, tag):
+        """second opinion on a discharged obligation: the same query (path condition and negated assertion), dumped as
+        SMT-LIB2 without set-logic, decided by cvc5 and by the system z3 4.8.12; a 'sat' from either is a disagreement"""
+        import subprocess
+        import tempfile
+        import os
+        s2 = z3.Solver()
+        s2.add(self.solver.assertions())
+        s2.add(ncond)
+        text = s2.to_smt2()
+        for op in ('bvsrem', 'bvsdiv', 'bvudiv', 'bvurem', 'bvsmod'):
+            text = text.replace(op + '_i', op).replace(op + '0', op)
+        st = self.stats
+        st.xchecked = getattr(st, 'xchecked', 0) + 1
+        with tempfile.NamedTemporaryFile('w', suffix='.smt2', delete=False) as f:
+            f.write(text)
+            fn = f.name
+        try:
+            for name, cmd in (('cvc5', ['cvc5', '--tlimit=5000', fn]), ('z3-4.8.12', ['/usr/bin/z3', '-T:5', fn])):
+                try:
+                    p = subprocess.run(cmd, capture_output=True, text=True, timeout=20)
+                    out = (p.stdout or '').strip().split('\n', 1)[0].strip()
+                except subprocess.TimeoutExpired:
+                    out = 'timeout'
+                if '(error' in (p.stdout or '') and out not in ('unsat', 'sat'):
+                    out = 'error'
+                key = 'xcheck_' + name.replace('-', '_').replace('.', '_') + '_' + (out if out in ('unsat', 'sat') else 'no_answer')
+                setattr(st, key, getattr(st, key, 0) + 1)
+                if out == 'sat':
+                    self.inconclusive.append('solver disagreement on %s: z3 5.1 unsat, %s sat' % (tag, name))
+        finally:
+            os.unlink(fn)
+
     def model(self):
         if self.ext_model is not None:
             return self.ext_model
@@ -617,6 +655,9 @@ class Engine:
                 r = self.check(ncond)  # need the model in the incremental solver
         if r == z3.unsat:
             st.discharged += 1
+            if self.xcheck_budget > 0 and not self.uf_defs_in(ncond):
+                self.xcheck_budget -= 1
+                self.cross_check(ncond, tag)
             if len(st.samples) < 6:
                 st.samples.append({'tag': tag, 'obligation': _abbrev(cond), 'path_decisions': len(self.trail),
                                    'verdict': 'unsat (holds)'})
